@@ -2,6 +2,8 @@ package main
 
 import (
 	"bytes"
+	"context"
+	"errors"
 	"fmt"
 
 	"github.com/libsv/go-bt/v2"
@@ -33,7 +35,7 @@ type shSeq struct {
 	Steps []shStep  `json:"steps"`
 }
 
-var shEdits = []string{"none", "out-sats", "out-script", "out-script-in-place", "in-seq", "in-vout", "in-txid", "prev-sats", "prev-script", "version", "locktime", "add-out", "del-out", "swap-outs", "unlock"}
+var shEdits = []string{"none", "out-sats", "out-script", "out-script-in-place", "in-seq", "in-vout", "in-txid", "prev-sats", "prev-script", "version", "locktime", "add-out", "del-out", "swap-outs", "unlock", "failed-fill-all", "failed-fill-all"}
 
 func shApplyEdit(tx *bt.Tx, cur *gen.Shape, st *shStep) bool {
 	no, ni := len(cur.Outs), len(cur.Ins)
@@ -108,10 +110,36 @@ func shApplyEdit(tx *bt.Tx, cur *gen.Shape, st *shStep) bool {
 		i, j := int(st.A)%no, int(st.V%uint64(no))
 		tx.Outputs[i], tx.Outputs[j] = tx.Outputs[j], tx.Outputs[i]
 		cur.Outs[i], cur.Outs[j] = cur.Outs[j], cur.Outs[i]
+	case "failed-fill-all":
+		// FillAllInputs with the caller's own UnlockerGetter: the unlockers hand each input's
+		// present unlocking script back, and the getter fails at one of the inputs (or never)
+		g := &shFailingGetter{tx: tx, failAt: int(st.A) % (ni + 1)}
+		mon.TryQuiet(func() { _ = tx.FillAllInputs(context.Background(), g) })
 	default:
 		return false
 	}
 	return true
+}
+
+type shFailingGetter struct {
+	tx     *bt.Tx
+	calls  int
+	failAt int
+}
+
+func (g *shFailingGetter) Unlocker(context.Context, *bscript.Script) (bt.Unlocker, error) {
+	g.calls++
+	if g.calls-1 == g.failAt {
+		return nil, errors.New("no key for this script")
+	}
+	return g, nil
+}
+
+func (g *shFailingGetter) UnlockingScript(_ context.Context, tx *bt.Tx, p bt.UnlockerParams) (*bscript.Script, error) {
+	if in := tx.Inputs[p.InputIdx]; in.UnlockingScript != nil {
+		return in.UnlockingScript, nil
+	}
+	return nil, errors.New("nothing to sign with")
 }
 
 func shJudgeSeq(c *mon.Ctx, in *shSeq, legacy bool) {
